@@ -109,6 +109,7 @@ def gen_case(rng):
                        for _ in range(ncyc + 4)],
                 lost=[rng.random() < 0.07 for _ in range(ncyc + 4)],
                 restart=rng.random() < 0.35,
+                regroup=rng.random() < 0.5,
                 rseed=rng.getrandbits(32))
 
 
@@ -207,6 +208,13 @@ def run_case(case):
             if seg:
                 hists.append(dict(cyc=[], updates=[], errors=[],
                                   logs=hist["logs"]))
+                if case.get("regroup"):
+                    # the same devices are handed to a new sync group
+                    # object (a re-configuration) once the first has ended
+                    sg = SyncGroup(ec, devs + [bd for _, bd in bitdevs]
+                                   + [cd for _, cd in cmddevs])
+                    orig = sg.update_devices
+                    sg.update_devices = upd
             h_ = hists[-1]
             task = sg.start()
             state["index"] = sg.packet_index
@@ -246,6 +254,8 @@ def check_case(case, res):
     for seg, hist in enumerate(hists):
         if seg:
             res.count("restarted_runs")
+            if case.get("regroup"):
+                res.count("runs_of_the_devices_in_a_new_group_object")
         if check_run(case, hist, res, seg) is False:
             return
 
